@@ -153,7 +153,7 @@ def main(run: core.Run) -> None:
     # outlives its expression or its subgraph), and user variables named like generated names (`x_0`, `x_sliced`, …)
     sib = [gen.sibling_subscript_program(run.rng, f"s{k}") for k in range(run.size(40, 300))]
     col = [gen.name_collision_program(run.rng, f"u{k}", subscripts=(k % 2 == 0)) for k in range(run.size(50, 400))]
-    ded = sib + col
+    ded = sib + col + [gen.nested_callee_program(run.rng, f"h{k}") for k in range(run.size(4, 30))]
     for k in range(0, len(ded), 25):
         tasks.append({"progs": ded[k:k + 25], "seed": run.rng.randrange(1 << 30), "n_inputs": 1, "semantic": False,
                       "structural": True})
